@@ -126,10 +126,14 @@ func (jr *JSONReader) values() ([]string, error) {
 	}
 }
 
-func (jr *JSONReader) unserializedChildren(_ []string, sn schema.Node) ([]unserialized, error) {
+func (jr *JSONReader) unserializedChildren(path []string, sn schema.Node) ([]unserialized, error) {
 	children := make([]unserialized, 0)
 
 	switch typeValue := jr.decodedMsg.(type) {
+	case nil: // nothing inside
+	case string, bool, float64, json.Number:
+		// A scalar where the schema has a container or list
+		return nil, schema.NewSchemaMismatchError(jr.name(), path)
 	case map[string]interface{}: // Container
 		for k, v := range typeValue {
 			child := &JSONReader{decodedName: k, decodedMsg: v}
